@@ -190,6 +190,40 @@ func H_Coll(p []int) {
 	}
 	vAssert(obj.Intersects(X) == wantI, "C10.intersects")
 
+	// the same question asked from the probe's side, and through the Spatial sub-interface of the collection
+	vAssert(X.Intersects(obj) == wantI, "C10.intersects-probe-side")
+	{
+		sp := obj.Spatial()
+		qr := X.Rect()
+		wr, ir, wp, ip := !allEmpty, false, !allEmpty, false
+		for _, c := range kids {
+			if c.Empty() {
+				continue
+			}
+			cs := c.Spatial()
+			if !cs.WithinRect(qr) {
+				wr = false
+			}
+			if cs.IntersectsRect(qr) {
+				ir = true
+			}
+			if !cs.WithinPoint(qr.Min) {
+				wp = false
+			}
+			if cs.IntersectsPoint(qr.Min) {
+				ip = true
+			}
+		}
+		vAssert(sp.IntersectsRect(qr) == ir, "C10.spatial-intersects-rect")
+		vAssert(sp.IntersectsPoint(qr.Min) == ip, "C10.spatial-intersects-point")
+		if nonEmpty == len(kids) { // with empty children present the library's Within* count them as not within
+			vAssert(sp.WithinRect(qr) == wr, "C10.spatial-within-rect")
+			vAssert(sp.WithinPoint(qr.Min) == wp, "C10.spatial-within-point")
+		} else {
+			vAssert(!sp.WithinRect(qr) && !sp.WithinPoint(qr.Min), "C10.spatial-within-with-empty-child")
+		}
+	}
+
 	// contains: X has a non-empty part and every non-empty part is contained by some child
 	hasPart := false
 	allIn := true
